@@ -1,0 +1,20 @@
+//go:build verif
+
+package p2p
+
+import (
+	"context"
+
+	pubsub "github.com/libp2p/go-libp2p-pubsub"
+	"github.com/libp2p/go-libp2p/core/peer"
+)
+
+// VerifVerifyMessage exposes the topic validator to the verification harness.
+// Compiled only with the `verif` build tag.
+func (s *Subscriber[H]) VerifVerifyMessage(
+	ctx context.Context,
+	p peer.ID,
+	msg *pubsub.Message,
+) pubsub.ValidationResult {
+	return s.verifyMessage(ctx, p, msg)
+}
